@@ -149,6 +149,68 @@ pub fn gen_schedules(rng: &mut Rng, batch: usize, thorough: bool) -> Vec<(usize,
   v
 }
 
+/// cross-table histories: a thread is held inside the `call_once` closure of one table (in front of the construction)
+/// while another thread makes a complete first use of the OTHER table at the same depth; each table must still be
+/// constructed exactly once and every caller must get the same objects (the two factories are independent: nothing in
+/// one may fill or read the slot of the other outside its `Once`)
+pub fn cross(out: &mut Out) {
+  unsafe { GLOBAL = Some(Arc::new(Global { m: Mutex::new(Sched { table: 0, depth: 0, active: false, st: vec![], go: vec![], enter: vec![], early: vec![] }), cv: Condvar::new() })); }
+  vh::set_yield_callback(Some(callback));
+  let g = global();
+  for d in 1..30u8 {
+    let (held, other) = if d % 2 == 1 { (vh::TABLE_C2V, vh::TABLE_LAYERS) } else { (vh::TABLE_LAYERS, vh::TABLE_C2V) };
+    { let mut s = g.m.lock().unwrap(); s.table = held; s.depth = d; s.active = true; s.st = vec![TS::NotStarted]; s.go = vec![false]; s.enter = vec![true]; s.early = vec![false]; }
+    let h = std::thread::spawn(move || {
+      TID.with(|c| c.set(0));
+      let r = std::panic::catch_unwind(|| call_factory(held, d));
+      let g = global();
+      let mut s = g.m.lock().unwrap();
+      s.st[0] = match r { Ok(a) => TS::Done(a), Err(_) => TS::Panicked };
+      g.cv.notify_all();
+    });
+    // drive thread 0 to the yield point in front of the construction
+    let wait_change = |from: TS| -> TS {
+      let mut s = g.m.lock().unwrap();
+      let mut spins = 0;
+      while s.st[0] == from || s.go[0] { let r = g.cv.wait_timeout(s, Duration::from_millis(100)).unwrap(); s = r.0; spins += 1; if spins > 100 { break; } }
+      s.st[0]
+    };
+    let mut cur = wait_change(TS::NotStarted);
+    let mut guard = 0;
+    while cur != TS::At(vh::BEFORE_CONSTRUCT) && guard < 8 {
+      if let TS::At(_) = cur { let mut s = g.m.lock().unwrap(); s.go[0] = true; g.cv.notify_all(); } else { break; }
+      cur = wait_change(cur);
+      guard += 1;
+    }
+    out.evaluations += 1;
+    out.stat(&format!("C20:cross-table:held-{}", if held == vh::TABLE_LAYERS { "layers" } else { "c2v-constants" }));
+    let inp = format!("depth={} held-table={} (thread 0 in front of the construction) other-table={} used completely by a second thread", d, held, other);
+    let reached = cur == TS::At(vh::BEFORE_CONSTRUCT);
+    // the other table, complete first use, from this thread (not scheduled: its yield points do not block)
+    let a_other = std::panic::catch_unwind(|| call_factory(other, d));
+    // (nothing that needs the HELD table may be called here: its `Once` is running and would block this thread for ever)
+    if other == vh::TABLE_C2V { let _ = std::panic::catch_unwind(|| cdshealpix::largest_center_to_vertex_distance(d, 1.0, 0.3)); } else { let _ = std::panic::catch_unwind(|| cdshealpix::nested::get_or_create(d).n_hash()); }
+    // release thread 0 to the end
+    let mut guard = 0;
+    loop {
+      let st = { let s = g.m.lock().unwrap(); s.st[0] };
+      match st { TS::Done(_) | TS::Panicked => break, TS::At(_) => { let mut s = g.m.lock().unwrap(); s.go[0] = true; g.cv.notify_all(); } _ => {} }
+      let _ = wait_change(st);
+      guard += 1; if guard > 16 { break; }
+    }
+    let _ = h.join();
+    let st = { let s = g.m.lock().unwrap(); s.st[0] };
+    { let mut s = g.m.lock().unwrap(); s.active = false; }
+    let (cl, cc) = (vh::construction_count(vh::TABLE_LAYERS, d), vh::construction_count(vh::TABLE_C2V, d));
+    let again_held = std::panic::catch_unwind(|| call_factory(held, d)).ok();
+    let again_other = std::panic::catch_unwind(|| call_factory(other, d)).ok();
+    let obs = format!("reached-construction-point={} thread0={:?} layers-constructed={} constants-constructed={} other={:?} again-held={:?} again-other={:?}", reached as u8, st, cl, cc, a_other.as_ref().ok(), again_held, again_other);
+    let ok = cl == 1 && cc == 1 && matches!(st, TS::Done(a) if Some(a) == again_held && a != 0) && a_other.is_ok() && a_other.ok() == again_other;
+    if !ok { out.violation("C20:cross-table", inp, "each table constructed exactly once, every caller gets the same objects".into(), obs); }
+  }
+  vh::set_yield_callback(None);
+}
+
 /// unscheduled stress: many threads, all depths, results identical to single-threaded results
 pub fn stress(out: &mut Out) {
   use cdshealpix::nested::get_or_create;
